@@ -35,9 +35,37 @@ def la_spec(rng, maxlen=12):
     return ic, idm, xc, xdm
 
 
-def mk_la(LP, s):
+def mk_la(LP, s, defaults=False):
+    """the element; with `defaults` a zero component is left to the class's own default argument (`LAlg()`,
+    `LAlg(IPoly=...)`, `LAlg(XPoly=...)`) instead of being passed as `LPoly([])`"""
     ic, idm, xc, xdm = s
+    if defaults and not ic and not xc:
+        return LP.LAlg()
+    if defaults and not ic:
+        return LP.LAlg(XPoly=LP.LPoly(list(xc), xdm))
+    if defaults and not xc:
+        return LP.LAlg(IPoly=LP.LPoly(list(ic), idm))
     return LP.LAlg(LP.LPoly(list(ic), idm), LP.LPoly(list(xc), xdm))
+
+
+CONSTS = {}
+
+
+def consts_snapshot(LP):
+    """the module-level constants and what the constructors' defaults produce, as bytes"""
+    def lp(x):
+        return (np.asarray(x.coefs).tobytes(), int(x.dmin), bool(x.iszero))
+    out = {}
+    for name in ("Id", "w", "iX"):
+        g = getattr(LP, name)
+        out[name] = lp(g) if isinstance(g, LP.LPoly) else (lp(g.IPoly), lp(g.XPoly))
+    try:
+        z = LP.LAlg()
+        out["LAlg()"] = (lp(z.IPoly), lp(z.XPoly))
+    except Exception as e:  # noqa  (the zero element cannot even be built any more: that is a change of what LAlg() denotes)
+        out["LAlg()"] = "raises " + type(e).__name__
+    out["LPoly([])"] = lp(LP.LPoly([]))
+    return out
 
 
 def spec_of_lp(x):
@@ -135,8 +163,30 @@ def op_case(ctx, LP, rng):
         ctx.count("near-cancellation:" + op)
     pc, pd, _ = gens.lp_spec(rng, maxlen=8, zero_prob=0.15)
     pd = int(rng.integers(-9, 10))
-    a, b = mk_la(LP, A), mk_la(LP, B)
+    use_defaults = rng.random() < 0.5
+    if use_defaults:
+        # a zero component left to the constructor's default argument sits at power 0
+        A = (A[0], A[1] if A[0] else 0, A[2], A[3] if A[2] else 0)
+        B = (B[0], B[1] if B[0] else 0, B[2], B[3] if B[2] else 0)
+        if (not A[0]) or (not A[2]) or (not B[0]) or (not B[2]):
+            ctx.count("zero-component-from-constructor-default")
+    try:
+        a, b = mk_la(LP, A, use_defaults), mk_la(LP, B, use_defaults)
+    except Exception as e:  # noqa
+        # every spec here has parts of one parity (or a zero part): the constructor has no reason to refuse
+        ctx.violation("construct:raises", "building an algebra element from parts of consistent parity%s raises %s: %s" % (
+            " (zero part left to the constructor's default)" if use_defaults else "", type(e).__name__, str(e)[:80]),
+            {"op": "construct", "A": A, "B": B, "constructor_defaults": use_defaults})
+        return
     p = LP.LPoly(list(pc), pd)
+    # the operator spelled as an augmented assignment (`a += b`, `a -= b`, `a *= b`): Python falls back to `a = a + b`
+    # when the class has no in-place method, and uses the in-place method when it has one - either way the name `a` must
+    # afterwards denote the sum / difference / product, and nothing ELSE may change
+    augmented = op in ("mul", "mulr", "smul", "add", "addp", "sub") and rng.random() < 0.3
+    if augmented:
+        ctx.count("augmented-assignment:" + op)
+    if "consts" not in CONSTS:
+        CONSTS["consts"] = consts_snapshot(LP)
     if rng.random() < 0.3:
         # second-generation operands: results of earlier operations, used again
         try:
@@ -157,14 +207,17 @@ def op_case(ctx, LP, rng):
             p = LP.LPoly(list(pc), pd)
 
     def snap():
-        return tuple((np.asarray(x.coefs).tobytes(), int(x.dmin), bool(x.iszero)) for x in (a.IPoly, a.XPoly, b.IPoly, b.XPoly, p))
+        ops_ = (b.IPoly, b.XPoly, p) if augmented else (a.IPoly, a.XPoly, b.IPoly, b.XPoly, p)
+        return tuple((np.asarray(x.coefs).tobytes(), int(x.dmin), bool(x.iszero)) for x in ops_)
     before = snap()
+    import operator
+    o_add, o_sub, o_mul = ((operator.iadd, operator.isub, operator.imul) if augmented else (operator.add, operator.sub, operator.mul))
     tol = EPS * la_l1(A) * la_l1(B)
     extra = {}
     if op == "mul":
-        py = py_call(lambda: a * b); mo = d.ask("la.mul %s %s" % (enc_la(A), enc_la(B)))
+        py = py_call(lambda: o_mul(a, b)); mo = d.ask("la.mul %s %s" % (enc_la(A), enc_la(B)))
     elif op == "mulr":
-        py = py_call(lambda: a * p); mo = d.ask("la.mulr %s %s" % (enc_la(A), enc(pc, pd)))
+        py = py_call(lambda: o_mul(a, p)); mo = d.ask("la.mulr %s %s" % (enc_la(A), enc(pc, pd)))
         tol = EPS * la_l1(A) * (l1(pc) + 1)
     elif op == "mull":
         py = py_call(lambda: p * a); mo = d.ask("la.mull %s %s" % (enc(pc, pd), enc_la(A)))
@@ -172,16 +225,16 @@ def op_case(ctx, LP, rng):
     elif op == "smul":
         c = float(rng.choice([0.5, -1.0, 2.0, 0.0, float(rng.normal())]))
         extra["c"] = c
-        py = py_call(lambda: a * c); mo = d.ask("la.smul %s %s" % (rs(F(c)), enc_la(A)))
+        py = py_call(lambda: o_mul(a, c)); mo = d.ask("la.smul %s %s" % (rs(F(c)), enc_la(A)))
         tol = EPS * la_l1(A) * (abs(F(c)) + 1)
     elif op == "add":
-        py = py_call(lambda: a + b); mo = d.ask("la.add %s %s" % (enc_la(A), enc_la(B)))
+        py = py_call(lambda: o_add(a, b)); mo = d.ask("la.add %s %s" % (enc_la(A), enc_la(B)))
         tol = EPS * (la_l1(A) + la_l1(B))
     elif op == "addp":
-        py = py_call(lambda: a + p); mo = d.ask("la.addp %s %s" % (enc_la(A), enc(pc, pd)))
+        py = py_call(lambda: o_add(a, p)); mo = d.ask("la.addp %s %s" % (enc_la(A), enc(pc, pd)))
         tol = EPS * (la_l1(A) + l1(pc) + 1)
     elif op == "sub":
-        py = py_call(lambda: a - b); mo = d.ask("la.sub %s %s" % (enc_la(A), enc_la(B)))
+        py = py_call(lambda: o_sub(a, b)); mo = d.ask("la.sub %s %s" % (enc_la(A), enc_la(B)))
         tol = EPS * (la_l1(A) + la_l1(B))
     elif op == "neg":
         py = py_call(lambda: -a); mo = d.ask("la.neg %s" % enc_la(A))
@@ -203,11 +256,19 @@ def op_case(ctx, LP, rng):
         ctx.violation("%s:operand-mutated" % op, "LAlg.%s modifies one of its operands (later uses of that element are wrong)" % op,
                       {"op": op, "A": A, "B": B, "P": [pc, pd], "extra": extra})
         return
+    now = consts_snapshot(LP)
+    if now != CONSTS["consts"]:
+        changed = [k_ for k_ in now if now[k_] != CONSTS["consts"][k_]]
+        CONSTS["consts"] = now               # report once, not for every later case
+        ctx.violation("%s:constants-changed" % op, "after LAlg.%s%s the module constants / constructor defaults %s no longer denote what they did "
+                      "(Id, w, iX must map to 1, diag(w,1/w), iX; LAlg() to 0)" % (op, " (augmented assignment)" if augmented else "", changed),
+                      {"op": op, "augmented": augmented, "A": A, "B": B, "P": [pc, pd], "extra": extra, "constructor_defaults": use_defaults, "changed": changed})
+        return
     zero_comp = (not A[0]) or (not A[2]) or (op in ("mul", "add", "sub") and ((not B[0]) or (not B[2])))
     ctx.count("op:" + op)
     if zero_comp:
         ctx.count("zero-component")
-    replay = {"op": op, "A": A, "B": B, "P": [pc, pd], "extra": extra}
+    replay = {"op": op, "A": A, "B": B, "P": [pc, pd], "extra": extra, "augmented": augmented, "constructor_defaults": use_defaults}
     ctx.case([op, enc_la(A), enc_la(B), enc(pc, pd), extra], True,
              {"op": op, "A": [A[0][:4], A[1], A[2][:4], A[3]], "model": mo[:100]})
     if op == "attrs":
